@@ -2,7 +2,7 @@
 From Coq Require Export List String Bool.
 Export ListNotations.
 
-Inductive nd_kind := NdMapRange | NdTimeNow | NdGlobalRand | NdGoroutine | NdSelect.
+Inductive nd_kind := NdMapRange | NdTimeNow | NdGlobalRand | NdGoroutine | NdSelect | NdFanIn.
 
 Inductive nd_class :=
   | ClOrderFree     (* map range: body only deletes / writes m2[key] / accumulates integers commutatively / sets constant flags *)
@@ -11,7 +11,12 @@ Inductive nd_class :=
   | ClOrderDep      (* map range: anything else *)
   | ClClock         (* time.Now / Since / Until *)
   | ClRand          (* package-level math/rand (global source) *)
-  | ClSched.        (* go statement / select *)
+  | ClSched         (* go statement / select *)
+  (* call of a fan-in function (one goroutine per item, one error returned), by what its callback can return: *)
+  | ClFanInOrdered  (* the fan-in function sends no error through a plain error channel: all errors carry the index and are sorted *)
+  | ClFanInConst    (* the first error to arrive surfaces, but every error is the same whatever item produced it *)
+  | ClFanInValue    (* ... some error text is formatted from non-string data loaded for the item (an enum, a number) *)
+  | ClFanInItem.    (* ... some error text mentions the item (its id, a string of the loaded value), or the analysis cannot tell *)
 
 Definition nd_site : Type := (string * nd_kind * nd_class)%type.
 
